@@ -13,32 +13,32 @@ import (
 )
 
 type OrderInfo struct {
-	Id           uint64
-	DataId       string
-	Op           uint32
-	Charged      sdk.Int
-	Payer        string // address debited
-	OwnerPay     string // owner DID's payment address at creation
-	CreatedAt    int64
-	Authorized   bool // created by an intact request signed by owner / rw grantee
+	Id            uint64
+	DataId        string
+	Op            uint32
+	Charged       sdk.Int
+	Payer         string // address debited
+	OwnerPay      string // owner DID's payment address at creation
+	CreatedAt     int64
+	Authorized    bool // created by an intact request signed by owner / rw grantee
 	EverCompleted bool
-	Income       sdk.Dec // income attributed to shards while they named this order
-	Providers    map[string]bool
-	PreMeta      *metaCopy // metadata just before the order's store tx (nil = none)
-	HadMeta      bool
-	Timeout      uint64
+	Income        sdk.Dec // income attributed to shards while they named this order
+	Providers     map[string]bool
+	PreMeta       *metaCopy // metadata just before the order's store tx (nil = none)
+	HadMeta       bool
+	Timeout       uint64
 	StoreTxSigner string
 	ExcessAtStore map[string]int64 // per provider: used capacity beyond its stored shards just before the order was created
 }
 
 type metaCopy struct {
-	Status   int32
-	Commit   string
-	Commits  []string
-	OrderId  uint64
-	Orders   []uint64
-	Cid      string
-	Duration uint64
+	Status    int32
+	Commit    string
+	Commits   []string
+	OrderId   uint64
+	Orders    []uint64
+	Cid       string
+	Duration  uint64
 	CreatedAt uint64
 }
 
@@ -51,21 +51,21 @@ type ShardInfo struct {
 }
 
 type Track struct {
-	Orders     map[uint64]*OrderInfo
-	Shards     map[uint64]*ShardInfo
-	MaxOrderId uint64
-	MaxShardId uint64
-	HaveOrder  bool
-	HaveShard  bool
-	Earned     map[string]sdk.Dec // provider -> income earned by bytes x blocks
-	Taken      map[string]sdk.Dec // provider -> income taken out of the worker account at claims
+	Orders       map[uint64]*OrderInfo
+	Shards       map[uint64]*ShardInfo
+	MaxOrderId   uint64
+	MaxShardId   uint64
+	HaveOrder    bool
+	HaveShard    bool
+	Earned       map[string]sdk.Dec // provider -> income earned by bytes x blocks
+	Taken        map[string]sdk.Dec // provider -> income taken out of the worker account at claims
 	EverProvider map[string]bool
-	MintedNode sdk.Int
-	ClaimedRw  map[string]sdk.Dec // provider -> block reward claimed (whole coins)
-	ExpectRw   map[string]sdk.Dec // provider -> independent pro-rata accumulator
-	CapPaid    map[string]sdk.Int
-	CapBack    map[string]sdk.Int
-	RwBlocks   int64
+	MintedNode   sdk.Int
+	ClaimedRw    map[string]sdk.Dec // provider -> block reward claimed (whole coins)
+	ExpectRw     map[string]sdk.Dec // provider -> independent pro-rata accumulator
+	CapPaid      map[string]sdk.Int
+	CapBack      map[string]sdk.Int
+	RwBlocks     int64
 	BytesPerCoin int64
 }
 
@@ -262,7 +262,6 @@ func decodeTxResp(data []byte, out interface{ Unmarshal([]byte) error }) bool {
 func fmtAddr(s string) string { return short(strings.TrimPrefix(s, "sao1")) }
 
 var _ = fmt.Sprintf
-
 
 // usedExcess: the provider's reported used capacity minus the total size of the shards it has
 // stored (completed) - capacity "reserved" for something that is not stored.
